@@ -176,6 +176,7 @@ def run_history(case):
     ndiv = 0
     canons = []
     steps = 0
+    branches = []
     pre0 = f"C18|{kind}|word={word or '-'}"
     v, cur = check_state(poly, kind, 0, record, pre0 + "|step=0", case)
     vs.extend(v)
@@ -186,6 +187,14 @@ def run_history(case):
                 poly.divide_edges()
                 ndiv += 1
                 v, cur = check_state(poly, kind, ndiv, record, pre, case)
+                vs.extend(v)
+            elif ch in "cp":
+                # branch the history: continue on a deep copy (c) / a pickle round trip (p); the original is re-checked at
+                # the end, after the copy has been subdivided further
+                import copy, pickle
+                branches.append((poly, ndiv, dict(record)))
+                poly = copy.deepcopy(poly) if ch == "c" else pickle.loads(pickle.dumps(poly))
+                v, cur = check_state(poly, kind, ndiv, record, pre + "|branch", case)
                 vs.extend(v)
             elif ch == "a":
                 # read-only adjacency / antipode queries must leave every node attribute untouched
@@ -211,6 +220,13 @@ def run_history(case):
         steps += 1
         cache_n = poly.current_nodes[1] if poly.current_nodes[0] is not None else -1
         canons.append(digest([kind, ndiv, int(cache_n), sorted(cur.items())[:50], len(cur)]))
+    for bi, (old, nd, rec) in enumerate(branches):
+        try:
+            v, c0 = check_state(old, kind, nd, rec, pre0 + f"|original_of_branch={bi}", case)
+            vs.extend(v)
+            vs.extend(check_getters(old, kind, c0, pre0 + f"|original_of_branch={bi}", case))
+        except Exception as e:
+            vs.append(viol(pre0 + f"|original_of_branch={bi}|raises", f"{type(e).__name__}: {str(e)[:120]}", case))
     if len(vs) > 6:
         vs = vs[:6]
     return {"violations": vs, "canons": canons, "steps": steps}
@@ -244,6 +260,14 @@ def run(ctx):
         # a word that is a proper prefix of another word is covered by it (checks run after every step)
         maximal = [w for w in ws if not any(o != w and o.startswith(w) for o in ws)]
         cs += [{"kind": kind, "word": w} for w in sorted(maximal)]
+    # branching histories: a deep copy / pickle round trip taken at every point of a short history, the copy subdivided
+    # further than the original and queried
+    for kind, L in plan.items():
+        Lb = min(L, 2 if kind == "cube4D" else 3)
+        for nd0 in range(0, Lb):
+            for br in "cp":
+                for mid in ("", "g"):
+                    cs.append({"kind": kind, "word": "d" * nd0 + mid + br + "d" * (Lb - nd0) + "ga" + ("" if kind == "cube4D" else "dg")})
     cs.sort(key=lambda c: -(c["word"].count("d") * (10 if c["kind"] == "cube4D" else 1)))
     res = ctx.pmap(run_history, cs, chunksize=1, recheck=2)
     states = set()
